@@ -8,6 +8,7 @@ with the REAL compiler:
  (3) the cast text emitted for the plain `<<=` form, parsed and compared with Conv.cast_emit inside Coq."""
 from __future__ import annotations
 import json
+import time
 
 import common
 import explore as X
@@ -232,6 +233,7 @@ def emit_item(it: Item, D):
             sd = f"Signal[{T}]({default_of(tgt)}, name='s{k}')" if form in ("ixor", "push") else f"Signal[{T}](name='s{k}')"
             D["pre"].append(f"        s{k} = {sd}")
             D["conc"].append(f"            {q} <<= s{k}")
+            D["nl_" + ctx].append(f"s{k}")
             tname_ = f"s{k}"
             if form in ("ixor", "push"):
                 D["ports"][-1] = f"    q{k} = Port.output({T})"
@@ -313,7 +315,7 @@ def build_design(items, inputs, t0_mode="port"):
     """items: [Item]; inputs: [(name, type)] input ports.  t0_mode 'port': the other branch of a merge is an input port
     `t<k>` of the target type (single pair designs); 'z': it is a view of the shared 3 bit input z (packed designs)."""
     D = {"ports": [], "pre": [], "conc": [], "comb": [], "clk": [], "subs": [], "nonlocal": [], "need_c": False,
-         "need_f": False, "extra_in": []}
+         "need_f": False, "extra_in": [], "nl_conc": [], "nl_clk": [], "nl_comb": []}
 
     def t0(tgt):
         if t0_mode == "port":
@@ -359,14 +361,20 @@ def build_design(items, inputs, t0_mode="port"):
     src += D["ports"]
     src += ["", "    def architecture(self):"] + D["pre"]
     if D["conc"]:
-        src += ["        @std.concurrent", "        def logic():"] + D["conc"]
+        src += ["        @std.concurrent", "        def logic():"]
+        if D["nl_conc"]:
+            src.append("            nonlocal " + ", ".join(D["nl_conc"]))
+        src += D["conc"]
     if D["comb"]:
         src += ["        @std.sequential", "        def comb():"]
         if D["nonlocal"]:
             src.append("            nonlocal " + ", ".join(D["nonlocal"]))
         src += D["comb"]
     if D["clk"]:
-        src += ["        @std.sequential(std.Clock(self.clk))", "        def proc():"] + D["clk"]
+        src += ["        @std.sequential(std.Clock(self.clk))", "        def proc():"]
+        if D["nl_clk"]:
+            src.append("            nonlocal " + ", ".join(D["nl_clk"]))
+        src += D["clk"]
     if not (D["pre"] or D["conc"] or D["comb"] or D["clk"]):
         src.append("        pass")
     return "\n".join(src) + "\n", ins, bool(D["clk"])
@@ -451,8 +459,6 @@ def cell_design(i, c):
     return {"name": cell_name(i, c), "source": text, "entity": "E"}
 
 
-def run(ck: common.Check, replay=None):
-    raise NotImplementedError
 
 
 # ----------------------------------------------------------------------------
@@ -477,3 +483,482 @@ def tie_terms(cells, accepted):
 TIE_TYPE = "form * cty * cty * bool"
 TIE_PRED = "fun c => match c with (f, s, t, a) => Bool.eqb (assign_ok f s t) a end"
 DOC_PRED = "fun c => match c with (f, s, t, a) => Bool.eqb (doc_ok s t) a end"
+
+
+# ----------------------------------------------------------------------------
+# cell selection per tier
+# ----------------------------------------------------------------------------
+CORPUS = [
+    # one cell per class of the statement and per known departure
+    ("ilshift", "Port", ("U", 2), ("U", 3), None), ("ilshift", "Port", ("S", 2), ("S", 3), None),
+    ("ilshift", "Port", ("U", 2), ("S", 3), None), ("ilshift", "Port", ("BV", 3), ("S", 3), None),
+    ("ilshift", "Port", ("U", 3), ("BV", 3), None), ("ilshift", "Port", ("Bool",), ("Bit",), None),
+    ("ilshift", "Port", ("Bit",), ("Bool",), None), ("ilshift", "Port", ("Full",), ("S", 3), None),
+    ("ilshift", "Port", ("IntLit", -4), ("S", 3), None), ("ilshift", "Port", ("IntLit", 8), ("U", 3), None),
+    ("ilshift", "Port", ("U", 3), ("U", 2), None), ("ilshift", "Port", ("S", 3), ("U", 3), None),
+    ("ilshift", "Port", ("U", 3), ("S", 3), None), ("ilshift", "Port", ("BV", 2), ("U", 3), None),
+    ("ilshift", "Port", ("Bit",), ("U", 1), None), ("ilshift", "Port", ("U", 1), ("Bit",), None),
+    ("ilshift", "Port", ("Int",), ("U", 3), None), ("ilshift", "Port", ("Int",), ("S", 3), None),
+    ("ilshift", "Port", ("U", 3), ("Bool",), None), ("ilshift", "Port", ("U", 3), ("Int",), None),
+    ("decl_sig", "Signal", ("S", 3), ("U", 3), None), ("decl_var", "Variable", ("U", 3), ("S", 3), None),
+    ("decl_sig", "Signal", ("U", 3), ("U", 2), None), ("decl_static", "Signal", ("IntLit", 2), ("Bool",), None),
+    ("port_in", "Port", ("U", 2), ("U", 3), None), ("port_in", "Port", ("Int",), ("Bit",), None),
+    ("port_in", "Port", ("Null",), ("U", 2), None),
+    ("port_out", "Port", ("U", 3), ("U", 2), None), ("port_out", "Port", ("U", 2), ("U", 3), None),
+    ("port_out", "Port", ("S", 3), ("U", 2), None),
+    ("ifexp_a", "Port", ("U", 2), ("Int",), None), ("ifexp_b", "Port", ("U", 2), ("Int",), None),
+    ("ifexp_b", "Port", ("Int",), ("U", 2), None), ("ret_a", "Port", ("BV", 3), ("U", 3), None),
+    ("ret_b", "Port", ("S", 3), ("BV", 3), None), ("ifexp_a", "Port", ("U", 2), ("U", 3), None),
+    ("slice", "Port", ("Null",), ("U", 2), "S"), ("slice", "Port", ("U", 2), ("S", 3), "U"),
+    ("slice", "Port", ("S", 2), ("S", 3), "BV"), ("elem", "Port", ("Bool",), ("Bit",), "S"),
+    ("ixor", "Signal", ("S", 2), ("S", 3), None), ("push", "Port", ("U", 2), ("S", 3), None),
+    ("imatmul", "Variable", ("BV", 3), ("U", 3), None), ("value", "Variable", ("S", 1), ("S", 3), None),
+    ("next", "Signal", ("U", 1), ("U", 3), None),
+]
+
+
+def select_cells(ck):
+    allc = grid(ck.tier, ck.rng)
+    if ck.tier != "quick":
+        return allc
+    key = lambda c: (c["form"], c["qual"], c["src"], c["tgt"], c["root"])
+    chosen = {}
+    for f, q, s, t, r in CORPUS:
+        chosen[(f, q, s, t, r)] = {"form": f, "qual": q, "src": s, "tgt": t, "root": r}
+    groups = {}
+    for c in allc:
+        groups.setdefault((c["form"], c["qual"], c["root"]), []).append(c)
+    for g, cs in sorted(groups.items(), key=lambda kv: str(kv[0])):
+        if g == ("ilshift", "Port", None):
+            pick = [c for c in cs if ck.rng.random() < 0.6]
+        else:
+            pick = ck.rng.sample(cs, min(len(cs), 34))
+        for c in pick:
+            chosen.setdefault(key(c), c)
+    return list(chosen.values())
+
+
+# ----------------------------------------------------------------------------
+# (2) per design value theorems
+# ----------------------------------------------------------------------------
+INT_ALPHA = "[VI (-9)%Z; VI (-1)%Z; VI 0%Z; VI 1%Z; VI 2%Z; VI 5%Z; VI 7%Z; VI 8%Z; VI 9%Z; VI 300%Z]"
+CASE_DEFS = """Local Open Scope Z_scope.
+Definition inp (ins : list value) (i : nat) : Z := dec (nth i ins (VI 0)).
+(* the represented number of the source, re-encoded in the target (used where no conversion is documented) *)
+Definition keep (s t : cty) (v : Z) : Z := num s v.
+Definition keepv (s t : cty) (v : Z) : value :=
+  let z := num s v in
+  match t with
+  | CBit | CBool => if (z =? 0) || (z =? 1) then enc t z else VI z
+  | CBV m | CU m => if (0 <=? z) && (z <? pow2 m) then enc t z else VI z
+  | CS m => if (smin m <=? z) && (z <=? smax m) then enc t (wrap m z) else VI z
+  | _ => enc t z
+  end.
+"""
+
+
+def flat(t):
+    return [t[0]] + list(t[1:])
+
+
+def pack_key(c):
+    """designs are packed by source; port connections apart (their text is known to be ill-typed when widths differ)"""
+    return (c["src"] if is_runtime(c["src"]) else ("lits",), "port" if c["form"] in ("port_in", "port_out") else "stmt")
+
+
+def alphabet_for(ins):
+    parts = []
+    for n, t in ins:
+        if t[0] == "Bit":
+            parts.append("bit_cands")
+        elif t[0] == "Bool":
+            parts.append("[VB false; VB true]")
+        elif t[0] == "Int":
+            parts.append(INT_ALPHA)
+        else:
+            parts.append("(vec_cands %s %d%%N)" % ({"BV": "KSlv", "U": "KUns", "S": "KSgn"}[t[0]], t[1]))
+    return "product [" + "; ".join(parts) + "]"
+
+
+def t0_term(tgt, idx):
+    """Coq term (raw Z) of the other branch of a merge in a packed design"""
+    k = tgt[0]
+    if k == "Bool":
+        return f"(inp ins {idx['zb']})"
+    if k == "Int":
+        return f"(inp ins {idx['zi']})"
+    w = 1 if k == "Bit" else tgt[1]
+    return f"(getslice (inp ins {idx['z']}) 0 {w}%N)"
+
+
+def out_term(it: Item, idx, conv):
+    s, t = coq_ty(it.src), coq_ty(it.tgt)
+    x = f"(inp ins {idx['a']})" if is_runtime(it.src) else "0"
+    val = f"({conv} {s} {t} {x})"
+    if it.form in ("ifexp_a", "ret_a", "ifexp_b", "ret_b"):
+        first = it.form in ("ifexp_a", "ret_a")
+        t0 = t0_term(it.tgt, idx)
+        c = f"(inp ins {idx['c']} =? 1)"
+        val = f"(if {c} then {val} else {t0})" if first else f"(if {c} then {t0} else {val})"
+    if it.form == "slice":
+        return f"(enc {coq_ty((it.root, it.tgt[1] + 2))} (2 * {val}))"
+    if it.form == "elem":
+        return f"(enc {coq_ty((it.root, 3))} (2 * {val}))"
+    if conv == "keep" and it.form not in ("ifexp_a", "ret_a", "ifexp_b", "ret_b"):
+        return f"(keepv {s} {t} {x})"
+    return f"(enc {t} {val})"
+
+
+def make_pack(name, cells, conv="conv_val"):
+    """one design holding every cell (all of one form, qualifier and source)"""
+    src = cells[0]["src"]
+    items = [Item(k, c["form"], c["qual"], c["src"], c["tgt"], src_expr_of(c["src"]), c["root"]) for k, c in enumerate(cells)]
+    inputs = [("a", src)] if is_runtime(src) else []
+    assert all(c["src"] == src for c in cells) or not is_runtime(src)
+    text, ins, clocked = build_design(items, inputs, t0_mode="z")
+    idx = {n: i for i, (n, t) in enumerate(ins)}
+    outs = "[" + "; ".join(out_term(it, idx, conv) for it in items) + "]"
+    return {"name": name, "source": text, "entity": "E", "ins": ins, "clocked": clocked, "outs": outs, "cells": cells}
+
+
+def small(t):
+    return not is_vec(t) or t[1] <= 3
+
+
+# ----------------------------------------------------------------------------
+# (3) emitted cast text -> Conv.cexp
+# ----------------------------------------------------------------------------
+def expr_to_cexp(e, srcname):
+    k = e[0]
+    if k == "name":
+        if e[1].lower() != srcname:
+            raise ValueError("unexpected operand " + e[1])
+        return "XSrc"
+    if k == "lit":
+        return "(XLit %s)" % R.coq_value(e[1][:4] if e[1][0] == "V" else e[1])
+    if k == "f1":
+        return "(XF1 %s %s)" % (e[1], expr_to_cexp(e[2], srcname))
+    if k == "f2":
+        if e[3][0] != "lit" or e[3][1][0] != "I":
+            raise ValueError("non literal second argument")
+        return "(XF2 %s %s (%d)%%Z)" % (e[1], expr_to_cexp(e[2], srcname), e[3][1][1])
+    if k == "bin" and e[1] == "OEq" and e[3] == ("lit", ("L", True)):
+        return "(XEqOne %s)" % expr_to_cexp(e[2], srcname)
+    if k == "bin" and e[1] == "ONe" and e[3] == ("lit", ("I", 0)):
+        return "(XNeZero %s)" % expr_to_cexp(e[2], srcname)
+    if k == "bin" and e[1] == "ONe" and e[3][0] == "lit" and e[3][1][0] == "V" and e[3][1][3] == 0:
+        return "(XNeZeros %s %d%%N)" % (expr_to_cexp(e[2], srcname), e[3][1][2])
+    raise ValueError("expression outside the cast vocabulary: %r" % (e,))
+
+
+def emitted_cast(vhdl, cell):
+    """the right hand side of the statement that writes the target, as a Conv.cexp term"""
+    ents, d = R.read_design(vhdl, None, None)
+    want_path = []
+    if cell["form"] == "slice":
+        want_path = [("slice", cell["tgt"][1], 1)]
+    elif cell["form"] == "elem":
+        want_path = [("idx", ("lit", ("I", 1)))]
+    for c in d.conc:
+        if c[0] != "assign":
+            continue
+        name, path = c[1]
+        if name.lower() in ("buffer_q0", "q0") and list(path) == want_path and c[2] != ("name", "buffer_q0"):
+            return expr_to_cexp(c[2], "a")
+    raise ValueError("no statement writes the target")
+
+
+# ----------------------------------------------------------------------------
+# run
+# ----------------------------------------------------------------------------
+def viol_key(c):
+    return {"form": c["form"], "src": kind_name(c["src"]), "tgt": kind_name(c["tgt"]), "rel": rel_class(c["src"], c["tgt"])}
+
+
+def cell_json(c):
+    return {"form": c["form"], "qual": c["qual"], "src": list(c["src"]), "tgt": list(c["tgt"]), "root": c["root"]}
+
+
+def cell_from_json(j):
+    return {"form": j["form"], "qual": j["qual"], "src": tuple(j["src"]), "tgt": tuple(j["tgt"]), "root": j["root"]}
+
+
+def first_line_with(vhdl, needle):
+    for l in vhdl.split("\n"):
+        if needle in l and "<=" in l or needle in l and ":=" in l or needle in l and "=>" in l:
+            return l.strip()
+    return ""
+
+
+def pdiag(cases):
+    """breadth-first verdict per case, in parallel: ('same' | 'cex' | 'fuel' | 'error', info)"""
+    import re
+    from concurrent.futures import ThreadPoolExecutor
+
+    def one(c):
+        st, info = X.diagnose(c)
+        log = " ".join(info.get("log", "").split())
+        if st == "error" and "no difference" in log:
+            st, info = "same", {}
+        elif st == "error":
+            m = re.search(r"= (VCex .*?) : (?:Explore\.)?verdict(?: = (.*?) : option)?", log)
+            if m:
+                st, info = "cex", {"path": m.group(1), "traces (design, documented)": m.group(2) or ""}
+            elif re.search(r"= VOk ", log):
+                st, info = "same", {}
+        common._cleanup_v(c.path[:-2] + "_diag.v")
+        return st, info
+
+    with ThreadPoolExecutor(common.NCPU) as ex:
+        return list(ex.map(one, cases))
+
+
+def run(ck: common.Check, replay=None):
+    t0 = time.time()
+    phase = ck.cov.setdefault("phase_s", {})
+
+    def mark(name):
+        nonlocal t0
+        phase[name] = round(time.time() - t0, 1)
+        t0 = time.time()
+
+    ck.check_props("C05_Properties.v")
+    mark("props")
+    if replay is not None:
+        cells = [cell_from_json(replay["cell"])]
+    else:
+        cells = select_cells(ck)
+    designs = [cell_design(i, c) for i, c in enumerate(cells)]
+    res = X.compile_designs(ck, designs)
+    accepted = [bool(r["ok"]) for r in res]
+    mark("compile_cells")
+    for c, a, r in zip(cells, accepted, res):
+        ck.evaluations += 1
+        ck.hist("forms", c["form"])
+        ck.hist("accepted" if a else "rejected_by", "yes" if a else r.get("error_type", "?"))
+        ck.nontrivial(cell_json(c))
+    ck.sample({"cell": cell_json(cells[0]), "source": designs[0]["source"], "accepted": accepted[0]})
+
+    # ---- (1a) the python rendering of the spec is the Coq doc_ok ----
+    pydoc = [doc_ok(c["src"], c["tgt"]) for c in cells]
+    bad_doc = common.coq_bad_indices(ck, "doc", PRE, TIE_TYPE, tie_terms(cells, pydoc), DOC_PRED)
+    ck.obligation(not bad_doc)
+    if bad_doc:
+        ck.violation({"harness": "doc_ok"}, "python doc_ok and Conv.doc_ok differ", {"cells": [cell_json(cells[i]) for i in bad_doc[:5]]},
+                     no_input=True)
+
+    # ---- (1b) model tie: real accept/reject vs Conv.assign_ok ----
+    bad = set(common.coq_bad_indices(ck, "tie", PRE, TIE_TYPE, tie_terms(cells, accepted), TIE_PRED))
+    for i, c in enumerate(cells):
+        ck.obligation(i not in bad)
+    seen = set()
+    for i in sorted(bad):
+        c = cells[i]
+        k = json.dumps(viol_key(c), sort_keys=True)
+        if k in seen:
+            continue
+        seen.add(k)
+        if accepted[i] and not pydoc[i]:
+            continue        # reported below as a violation of the spec itself
+        key = dict(viol_key(c), model="assign_ok")
+        ck.violation(key, "Conv.assign_ok no longer predicts the compiler's decision (accepted=%s, documented=%s); no value is "
+                     "mis-converted by this cell" % (accepted[i], pydoc[i]),
+                     {"cell": cell_json(c), "source": designs[i]["source"], "accepted": accepted[i], "error": res[i].get("error")},
+                     no_input=True)
+
+    mark("tie")
+    # ---- (1c) the spec: accepted but not documented ----
+    undocumented = {}
+    over = {}
+    for i, c in enumerate(cells):
+        ck.obligation(not (accepted[i] and not pydoc[i]))
+        if accepted[i] and not pydoc[i]:
+            undocumented.setdefault(json.dumps(viol_key(c), sort_keys=True), []).append(i)
+        if (not accepted[i]) and pydoc[i]:
+            over.setdefault(json.dumps(viol_key(c), sort_keys=True), []).append(i)
+    ck.cov["over_rejected_classes"] = {k: len(v) for k, v in sorted(over.items())}
+    ck.cov["over_rejected_example"] = [{"cell": cell_json(cells[v[0]]), "error": (res[v[0]].get("error") or "")[:160]}
+                                       for k, v in sorted(over.items())][:12]
+
+    # ---- (2) value theorems for accepted, documented pairs of width <= 3 ----
+    packs = {}
+    singles = []
+    for i, c in enumerate(cells):
+        if accepted[i] and pydoc[i] and small(c["src"]) and small(c["tgt"]):
+            if c["form"] in ("port_in", "port_out") and c["src"] != c["tgt"]:
+                singles.append([c])      # a port map carries no conversion: looked at one by one
+            else:
+                packs.setdefault(pack_key(c), []).append(c)
+    pdesigns = []
+    for n, (k, cs) in enumerate(sorted(packs.items(), key=lambda kv: str(kv[0]))):
+        for part in range(0, len(cs), 12):
+            pdesigns.append(make_pack("v%03d_%d_%s_%s" % (n, part // 12, tname(k[0]), k[1]), cs[part:part + 12]))
+    # one witness design per undocumented class: does some source value lose its number?
+    wdesigns = []
+    for n, (k, idxs) in enumerate(sorted(undocumented.items())):
+        sm = [i for i in idxs if small(cells[i]["src"]) and small(cells[i]["tgt"])]
+        i = (sm or idxs)[0]
+        wdesigns.append((k, i, make_pack("w%03d_%s" % (n, cells[i]["form"]), [cells[i]], conv="keep")))
+    pres = X.compile_designs(ck, [{"name": d["name"], "source": d["source"], "entity": "E"} for d in pdesigns + [w[2] for w in wdesigns]])
+    mark("compile_packs")
+
+    def to_case(d, r):
+        return X.Case(d["name"], r["vhdl"], step=f"fun st ins => (st, Ok {d['outs']})", init="[]",
+                      imports="From Cohdl Require Import Models.Conv.", defs=CASE_DEFS, alphabet=alphabet_for(d["ins"]),
+                      clk="clk" if d["clocked"] else None,
+                      meta={"cells": [cell_json(c) for c in d["cells"]], "source": d["source"]})
+
+    what = ("an accepted, documented conversion does not produce conv_val of the source on some input "
+            "(or the emitted cast is ill-typed: Err)")
+    key_of = lambda c: dict(viol_key(cell_from_json(c.meta["cells"][0])), stage="value")
+    ready = []
+    for d, r in zip(pdesigns, pres):
+        ck.evaluations += 1
+        if not r["ok"]:
+            singles += [[c] for c in d["cells"]]       # accepted one by one: look at them one by one
+            continue
+        try:
+            c = to_case(d, r)
+            X.write_case(ck, c)
+            ready.append((d, c))
+        except R.Unparsed:
+            singles += [[c] for c in d["cells"]]
+    outs = common.coqc_many([c.path for _, c in ready], timeout=2400)
+    n_items = 0
+    for (d, c), (rc, out, err) in zip(ready, outs):
+        if rc == 0:
+            ck.obligation(True, len(d["cells"]))
+            n_items += len(d["cells"])
+            ck.nontrivial(c.name)
+            common._cleanup_v(c.path)
+        else:
+            singles += [[x] for x in d["cells"]]
+    ck.cov["value_items_proved_in_packs"] = n_items
+    if singles:
+        sd = [make_pack("s%03d_%s" % (n, cs[0]["form"]), cs) for n, cs in enumerate(singles)]
+        sres = X.compile_designs(ck, [{"name": d["name"], "source": d["source"], "entity": "E"} for d in sd])
+        scases = []
+        for d, r in zip(sd, sres):
+            ck.evaluations += 1
+            if not r["ok"]:
+                ck.obligation(False)
+                ck.violation(dict(viol_key(d["cells"][0]), stage="value"), "cell accepted in the grid is rejected on recompilation: " +
+                             r["error"][:200], {"source": d["source"]}, no_input=True)
+                continue
+            try:
+                c = to_case(d, r)
+                X.write_case(ck, c)
+                scases.append(c)
+            except R.Unparsed as e:
+                ck.obligation(False)
+                ck.violation(key_of(to_case(d, r)), "emitted VHDL left the parsed subset: " + str(e),
+                             {"cell": cell_json(d["cells"][0]), "vhdl": r["vhdl"]}, no_input=True)
+        # breadth-first search first (cheap verdict); the theorem is only attempted where no difference exists
+        verdicts = pdiag(scases)
+        good = [c for c, (st, info) in zip(scases, verdicts) if st == "same"]
+        gouts = common.coqc_many([c.path for c in good], timeout=2400)
+        for c, (rc, out, err) in zip(good, gouts):
+            ck.obligation(rc == 0)
+            if rc == 0:
+                ck.nontrivial(c.name)
+                common._cleanup_v(c.path)
+            else:
+                ck.violation(key_of(c), "case obligation not discharged although no difference was found", {"case_file": c.path,
+                             "log": (out + err)[-800:]}, no_input=True)
+        seenv = set()
+        for c, (st, info) in zip(scases, verdicts):
+            if st == "same":
+                continue
+            ck.obligation(False)
+            k = json.dumps(key_of(c), sort_keys=True)
+            if k in seenv:
+                continue
+            seenv.add(k)
+            rep = {"cell": c.meta["cells"][0], "source": c.meta["source"], "vhdl": c.vhdl, "status": st}
+            rep.update(info)
+            ck.violation(key_of(c), what, rep, no_input=(st != "cex"))
+    ck.cov["value_items_rechecked_alone"] = len(singles)
+
+    mark("value_theorems")
+    # witnesses of the undocumented classes (expected to fail where a number is lost; informative only)
+    wcases = []
+    wmap = {}
+    for (k, i, d), r in zip(wdesigns, pres[len(pdesigns):]):
+        if not r["ok"]:
+            continue
+        try:
+            c = X.Case(d["name"], r["vhdl"], step=f"fun st ins => (st, Ok {d['outs']})", init="[]",
+                       imports="From Cohdl Require Import Models.Conv.", defs=CASE_DEFS, alphabet=alphabet_for(d["ins"]),
+                       clk="clk" if d["clocked"] else None, meta={})
+            X.write_case(ck, c)
+            wcases.append(c)
+            wmap[c.name] = k
+        except R.Unparsed as e:
+            wmap["!" + k] = "emitted VHDL outside the parsed subset: " + str(e)
+    witness = {}
+    for c, (st, info) in zip(wcases, pdiag(wcases)):
+        if st == "same":
+            witness[wmap[c.name]] = {"status": "the represented number survives for every source value tried"}
+        else:
+            witness[wmap[c.name]] = {"status": st, **{a: b for a, b in info.items() if a != "log"}}
+        common._cleanup_v(c.path)
+    for k, idxs in sorted(undocumented.items()):
+        i = idxs[0]
+        c = cells[i]
+        stmt = ""
+        for l in res[i]["vhdl"].split("\n"):
+            if ("buffer_q0" in l or "q0" in l or "i =>" in l or "o =>" in l) and ("<=" in l or ":=" in l or "=>" in l) and "q0 <= buffer_q0" not in l:
+                stmt = l.strip()
+                break
+        w = witness.get(k) or {"status": wmap.get("!" + k, "no witness design")}
+        ck.violation(viol_key(c), "conversion accepted although the statement demands a compile-time error (%d cells of this class)" % len(idxs),
+                     {"cell": cell_json(c), "source": designs[i]["source"], "emitted": stmt, "witness": w,
+                      "others": [cell_json(cells[j]) for j in idxs[1:6]]})
+
+    mark("witnesses")
+    # ---- (3) emitted cast text vs Conv.cast_emit ----
+    terms, who = [], []
+    for i, c in enumerate(cells):
+        if not accepted[i] or not ((c["form"] == "ilshift" and c["qual"] == "Port") or c["form"] in ("slice", "elem")):
+            continue
+        try:
+            ce = emitted_cast(res[i]["vhdl"], c)
+        except (ValueError, R.Unparsed) as e:
+            ck.obligation(False)
+            ck.violation(dict(viol_key(c), stage="cast_text"), "emitted statement is outside the cast vocabulary: " + str(e),
+                         {"cell": cell_json(c), "vhdl": res[i]["vhdl"]}, no_input=True)
+            continue
+        vt = (c["root"], c["tgt"][1]) if c["form"] == "slice" else c["tgt"]
+        terms.append("(%s, %s, %s, %s)" % (coq_ty(vt), coq_ty(c["tgt"]), coq_ty(c["src"]), ce))
+        who.append(i)
+    if terms:
+        badc = common.coq_bad_indices(ck, "cast", PRE, "cty * cty * cty * cexp", terms,
+                                      "fun c => match c with (vt, tg, st, e) => cexp_eqb (cast_emit vt tg st) e end")
+        ck.obligation(True, len(terms) - len(badc))
+        seenc = set()
+        for b in badc:
+            c = cells[who[b]]
+            ck.obligation(False)
+            k = json.dumps(viol_key(c), sort_keys=True)
+            if k in seenc:
+                continue
+            seenc.add(k)
+            ck.violation(dict(viol_key(c), stage="cast_text"), "emitted cast differs from Conv.cast_emit (value theorems decide whether "
+                         "the new text is still right)", {"cell": cell_json(c), "observed": terms[b]}, no_input=True)
+        ck.cov["cast_texts_compared"] = len(terms)
+
+    mark("cast_text")
+    ck.cov["cells"] = len(cells)
+    ck.cov["accepted"] = sum(accepted)
+    ck.cov["undocumented_classes"] = len(undocumented)
+    ck.cov["packed_designs"] = len(pdesigns)
+    ck.cov["exhaustive"] = ck.tier != "quick"
+    ck.cov["rule"] = ("cell = (form, qualifier, source type, target type, root kind); quick = fixed corpus + 60% of the plain `<<=` grid + "
+                      "34 seeded cells per other (form, qualifier, root); thorough = the whole grid over widths {1,2,3,4,8}; every cell is "
+                      "distinct; packed designs = accepted documented cells of width <= 3 grouped by (form, qualifier, source), each a "
+                      "theorem over all source values")
+    ck.trusted += ["fail-closed VHDL reader", "Vhdl.Sem / Vhdl.NumStd", "Conv.doc_ok / Conv.conv_val as the rendering of the statement",
+                   "generator -> source printer (harness/c05.py)"]
+    ck.assumptions += ["widths {1,2,3,4,8}; value theorems for widths <= 3 (the Coq theorems C05_value_* cover all widths of the model)",
+                       "run-time integer inputs are driven with a 10 value alphabet",
+                       "source qualifier is always an input port (decay makes the qualifier of the source irrelevant)"]
